@@ -778,6 +778,27 @@ func main() {
 	}
 	g.nbr = false
 
+	// ---- unused slots: custom channels with frequency 0 (AddChannel(0, ..) appends a
+	// disabled placeholder) in front of, between and behind real ones; the CFList must
+	// still offer the real ones at their positions (audit finding C15-7) ----
+	g.history("corpus-cflist-zero-first-slot", byName(band.EU868), []chanobs.Op{chanobs.Add(0, 0, 5), chanobs.Add(867100000, 0, 5)})
+	for _, name := range chanobs.Names {
+		cfg := cfgs[byName(name).Index+r.Intn(4)]
+		if !chanobs.SupportsExtra(cfg) {
+			continue
+		}
+		mn, mx, _ := chanobs.CFListDRRange(cfg)
+		f := func(k int) uint32 { return chanobs.Uplinks(cfg.New())[0].Freq + uint32(200000*(k+1)) }
+		z := chanobs.Add(0, mn, mx)
+		a := func(k int) chanobs.Op { return chanobs.Add(f(k), mn, mx) }
+		for i, ops := range [][]chanobs.Op{
+			{z}, {z, z, z, z, z, a(1)}, {z, a(1)}, {a(1), z, a(2)}, {z, z, z, z, a(1), a(2)},
+			{z, a(1), chanobs.Add(f(2), mn, mx+1), a(3), z, a(4)}, {chanobs.Add(0, mn+1, mx), a(1)},
+		} {
+			g.history(fmt.Sprintf("cflist-zero-slots-%d", i), cfg, ops)
+		}
+	}
+
 	// ---- stepping residues: custom channels at base + delta for every residue class
 	// the 100 Hz / 200 Hz stepping rules distinguish, in each frequency range (the
 	// band's own grid, the 2.4 GHz 200 Hz grid, the 1.2-1.6777 GHz range where the
